@@ -122,3 +122,95 @@ func Get(model string) Table {
 	}
 	panic("tables: no table for " + model)
 }
+
+// Dimensioned describes the flat layout of a model with table-valued parameters:
+// nScalars scalar rows (the last of which is the table length), then nTables tables.
+type Dimensioned struct{ NScalars, NTables int }
+
+var Dims = map[string]Dimensioned{"Storage": {2, 5}, "RatingCurvePartition": {1, 2}}
+
+// Repack re-lays a flat parameter vector whose tables have length n into the layout for table length maxN (zero padded).
+func Repack(model string, flat []float64, maxN int) []float64 {
+	d, ok := Dims[model]
+	if !ok {
+		return flat
+	}
+	n := int(flat[d.NScalars-1])
+	out := append([]float64{}, flat[:d.NScalars]...)
+	for k := 0; k < d.NTables; k++ {
+		tab := flat[d.NScalars+k*n : d.NScalars+(k+1)*n]
+		out = append(out, tab...)
+		for j := n; j < maxN; j++ {
+			out = append(out, 0)
+		}
+	}
+	return out
+}
+
+// TableLen returns the table length of a flat vector of a dimensioned model (0 otherwise).
+func TableLen(model string, flat []float64) int {
+	if d, ok := Dims[model]; ok {
+		return int(flat[d.NScalars-1])
+	}
+	return 0
+}
+
+// Stateless returns tables for the models without carried state.
+func Stateless() []Table {
+	var ts []Table
+	add := func(model string, letters [][]float64, sets ...map[string]float64) {
+		p, n := pvs(model, sets...)
+		ts = append(ts, Table{Model: model, Params: p, PNames: n, Letters: letters, Cost: 1})
+	}
+	one := [][]float64{{0}, {0.3}, {7}, {-3}}
+	two := gridx.LettersProduct([]float64{0, 0.3, 7}, []float64{0, 0.35, 5})
+	add("ApplyScalingFactor", one, M{"scale": 0.35}, M{"scale": 2.5}, M{"scale": 0})
+	add("DeliveryRatio", one, M{"fraction": 0.35}, M{"fraction": 1}, M{"fraction": 0})
+	add("DepthToRate", [][]float64{{0}, {0.1}, {12}}, M{"DeltaT": 86400, "area": 1e4}, M{"DeltaT": 3600, "area": 2.5e6}, M{"DeltaT": 86400, "area": 0})
+	add("FixedPartition", one, M{"fraction": 0.2}, M{"fraction": 0.35}, M{"fraction": 1})
+	add("VariablePartition", two, M{})
+	add("PartitionDemand", two, M{})
+	add("Input", one, M{})
+	add("Sum", two, M{})
+	add("Gate", gridx.LettersProduct([]float64{-1, 0, 1}, []float64{0.3, 7}), M{})
+	add("BaseflowFilter", one, M{})
+	add("ComputeProportion", two, M{"resultOnZeroDenominator": 86400}, M{"resultOnZeroDenominator": 0})
+	add("DateGenerator", [][]float64{{0}}, M{"startDate": 27, "startMonth": 2, "startYear": 2000}, M{"startDate": 30, "startMonth": 12, "startYear": 1999}, M{"startDate": 1, "startMonth": 1, "startYear": 2100})
+	add("ClimateVariables", gridx.LettersProduct([]float64{-5, 12, 35}, []float64{20, 80, 100}), M{"elevation": 0}, M{"elevation": 1500}, M{"elevation": 6000})
+	add("RunoffCoefficient", [][]float64{{0}, {2}, {30}}, M{"coeff": 0.35}, M{"coeff": 0.05}, M{"coeff": 1})
+	add("EmcDwc", two, M{"EMC": 250, "DWC": 40}, M{"EMC": 0.1, "DWC": 0}, M{"EMC": 0, "DWC": 0})
+	add("FixedConcentration", [][]float64{{0}, {0.3}, {7}}, M{"concentration": 250}, M{"concentration": 0.1}, M{"concentration": 0})
+	add("PassLoadIfFlow", gridx.LettersProduct([]float64{0, 1e-9, 12}, []float64{0.3, 7}), M{"scalingFactor": 0.35}, M{"scalingFactor": 2}, M{"scalingFactor": 0})
+	add("SednetDissolvedNutrientGeneration", two, M{"dissConst_EMC": 250, "dissConst_DWC": 40}, M{"dissConst_EMC": 0.1, "dissConst_DWC": 0})
+	pn := M{"area": 1e6, "nutSurfSoilConc": 0.002, "hillDeliveryRatio": 35, "Nutrient_Enrichment_Ratio": 1.5, "nutSubSoilConc": 0.001, "Nutrient_Enrichment_Ratio_Gully": 1.2, "gullyDeliveryRatio": 20, "nutrientDWC": 0.4, "Do_P_CREAMS_Enrichment": 1}
+	add("SednetParticulateNutrientGeneration", [][]float64{{0, 0, 0, 0, 0}, {120, 30, 0, 0, 2.5}, {0, 0, 120, 45, 0}, {120, 30, 120, 45, 2.5}}, pn, cp(pn, M{"hillDeliveryRatio": 100, "Do_P_CREAMS_Enrichment": 0}))
+	be := M{"riparianVegPercent": 40, "maxRiparianVegEffectiveness": 95, "soilErodibility": 80, "bankErosionCoeff": 0.0001, "linkSlope": 0.002,
+		"bankFullFlow": 50, "bankMgtFactor": 1, "sedBulkDensity": 1.5, "bankHeight": 2, "linkLength": 5000, "dailyFlowPowerFactor": 1.4, "longTermAvDailyFlow": 2e6, "soilPercentFine": 35, "durationInSeconds": 86400}
+	add("BankErosion", gridx.LettersProduct([]float64{0, 0.5, 30}, []float64{0, 1e5}), be, cp(be, M{"soilPercentFine": 100, "durationInSeconds": 3600}))
+	us := M{"S": 400, "P": 900, "RainThreshold": 12.7, "Alpha": 0.03, "Beta": 1.5, "Eta": 0.3, "A1": 1, "A2": 1, "A3": 1, "DWC": 5, "avK": 0.03, "avLS": 2, "avFines": 40,
+		"area": 2e6, "maxConc": 10000, "usleHSDRFine": 15, "usleHSDRCoarse": 5, "timeStepInSeconds": 86400}
+	add("USLEFineSedimentGeneration", [][]float64{{0, 0, 0, 0.9, 0.3, 0.2, 15}, {0.8, 0.2, 40, 0.9, 0.3, 0.2, 15}, {0.8, 0, 5, 0.9, 0.3, 0.2, 200}, {0.8, 0.2, 40, 0.9, 0, 0.2, 200}}, us, cp(us, M{"maxConc": 10, "usleHSDRFine": 100}))
+	gb := M{"YearDisturbance": 1900, "GullyEndYear": 2050, "Area": 2e6, "averageGullyActivityFactor": 0.4, "GullyAnnualAverageSedimentSupply": 500, "GullyPercentFine": 35,
+		"managementPracticeFactor": 0.8, "longtermRunoffFactor": 3, "dailyRunoffPowerFactor": 1.2, "sdrFine": 60, "sdrCoarse": 10, "timeStepInSeconds": 86400}
+	gl := [][]float64{{0, 2000, 250, 800}, {0.4, 2000, 250, 800}, {6, 2060, 250, 800}, {0.4, 1850, 250, 800}, {6, 2000, 0, 0}}
+	add("DynamicSednetGully", gl, gb, cp(gb, M{"GullyPercentFine": 100, "longtermRunoffFactor": 0}))
+	add("DynamicSednetGullyAlt", gl, gb, cp(gb, M{"GullyPercentFine": 0, "timeStepInSeconds": 3600}))
+	rc2 := []float64{2, 0, 100, 0, 1}
+	rc3 := []float64{3, 0, 10, 100, 1, 0.35, 0}
+	rc4 := []float64{4, 0, 0.3, 7, 1250.5, 0, 0.1, 0.35, 0.9}
+	ts = append(ts, Table{Model: "RatingCurvePartition", Params: [][]float64{rc2, rc3, rc4}, PNames: []string{"n=2", "n=3", "n=4"}, Letters: [][]float64{{0}, {0.3}, {7}, {100}}, Cost: 1})
+	return ts
+}
+
+// All returns tables for all catalogued models.
+func All() []Table { return append(Stateful(), Stateless()...) }
+
+// GetAny returns the table of any catalogued model.
+func GetAny(model string) Table {
+	for _, t := range All() {
+		if t.Model == model {
+			return t
+		}
+	}
+	panic("tables: no table for " + model)
+}
